@@ -53,6 +53,10 @@ Idx(code) == CHOOSE i \in PoolIx : Pool[i] = code
 SubPool == << "none", "i0", "im1", "i2p62", "s_a", "l_123", "l_self", "d_ab", "r_huge", "h_bad" >>
 SubIx == {Idx(SubPool[i]) : i \in 1..Len(SubPool)}
 
+\* the 23-value pool of the arity-3 covering array of the thorough tier: one or two values per type
+MidPool == << "none", "true", "i0", "im1", "i2p31", "i2p63", "im2p64", "f1p5", "fnan", "s_empty", "s12", "s_bad", "b_ab",
+              "l_123", "l_self", "t_12", "d_ab", "d_self", "set_12", "r_huge", "lam", "h_iter", "h_bad" >>
+
 \* Values whose complete iteration is not feasible.  A built-in that walks such a value to
 \* its end without consulting the step budget "does not come back": the property is
 \* violated (class "hang"); the driver reports all of them under one signature.
